@@ -462,6 +462,51 @@ def first_block_scenario(rnd, genesis=None, mid=None):
     return dict(g=10, hb=100, keys=2, issuance=issuance, node_key="k1", replica=False, steps=steps, skip_genesis=True, tag="midchain")
 
 
+def wallet_scenario(rnd):
+    """the node's own wallet (key k1): incoming payments, payments it builds itself around its balance (nothing, one,
+    half, everything, one more than everything, with and without fee, several in a row before any is confirmed),
+    its own blocks confirming them, peer blocks, the window wrapping over its outputs, a restart, sometimes a reorg"""
+    g = rnd.choice([3, 4, 6])
+    gen = Gen(rnd, g, 3)
+    gen.node_key = "k1"
+    gen.issuance = [[rnd.choice(["k1", "k1", "k2"]), rnd.choice([1000, 5000, 20000, 100000])] for _ in range(rnd.randint(7, 10))]
+    gen.outs = {"g%d" % i: (k, 1) for i, (k, a) in enumerate(gen.issuance)}
+    gen.snap = {"b1": (dict(gen.outs), 1, {})}
+    n = rnd.randint(g + 2, 2 * g + 8)
+    for i in range(n):
+        r = rnd.random()
+        if r < 0.45:
+            k = rnd.randint(1, 3)
+            for _ in range(k):
+                gen.steps.append(dict(op="wallet_tx", to=rnd.choice(["k2", "k3", "k1"]), fee=rnd.choice([0, 0, 1, 7, 50]),
+                                      frac=rnd.choice(["all", "all-1", "all+1", "half", "half", "one", "zero", "fee-only"]), tag="wallet"))
+            if rnd.random() < 0.7:
+                gen.steps.append(dict(op="bundle", label="n%d_%d" % (gen.h + 1, i), gt=True, gap=2, tag="bundle"))
+                # the generator does not model what the wallet spent: later peer blocks only spend other keys' outputs
+                gen.h += 1
+                gen.pool = {}
+        elif r < 0.9:
+            # a peer block, paying the node now and then, never spending the node's outputs
+            h = gen.h + 1
+            cand = [x for x in gen.spendable(h) if gen.outs[x][0] != "k1"]
+            if not cand:
+                continue
+            x = rnd.choice(cand)
+            gen.ntx += 1
+            t = dict(id="t%d" % gen.ntx, signer=gen.outs[x][0], ins=[x], outs=[[rnd.choice(["k1", "k1", "k2", "k3"]), 0] for _ in range(rnd.choice([1, 2]))],
+                     fee=rnd.choice([0, 3]), path=[])
+            gen.steps.append(dict(op="block", label="p%d_%d" % (h, i), gt=gen.gt_flag(h), txs=[t], tag="good", gap=2))
+            gen.apply(t, h)
+            gen.rebroadcast(h, "p%d_%d" % (h, i))
+            gen.h = h
+        elif r < 0.95:
+            gen.steps.append(dict(op="restart", tag="clean"))
+        else:
+            gen.steps.append(dict(op="bundle", label="m%d_%d" % (gen.h + 1, i), gt=True, gap=2, tag="bundle"))
+            gen.h += 1
+    return dict(g=g, hb=100, keys=3, issuance=gen.issuance, node_key="k1", replica=True, steps=gen.steps, tag="wallet")
+
+
 def lottery_scenario(rnd, seed_no):
     """blocks full of fee-paying transactions with different senders, routers and path lengths, paid out by
     the next ticket (and by the one after, when a block goes without a ticket); the ticket seed selects the
@@ -531,6 +576,8 @@ def scenarios(seed, n, long_p=0.3):
     for i in range(max(2, n // 25)):
         out.append(dust_spend_scenario(rnd))
     out += first_block_scenarios(rnd)
+    for i in range(max(4, n // 12)):
+        out.append(wallet_scenario(rnd))
     for i in range(n - 2 * (n // 6)):
         g = rnd.choice([3, 3, 4, 6])
         big = rnd.random() < 0.1
